@@ -1122,6 +1122,20 @@ class ImplEnv(ImplViz):
             return f"act {j} {m} raise"
         return f"act {j} {m} {self._fmt_step(res)}"
 
+    def cmd_mbad(self, ts):
+        """the k-th ILLEGAL decision in canonical order (jobs 0 … J, machine ids -2 … b); must be rejected"""
+        k, b = int(ts[0]), int(ts[1])
+        env = self.menv
+        legal = set(self.legal_actions(env))
+        J = len(env.dispatcher.instance.jobs)
+        cands = [(j, m) for j in range(J + 1) for m in range(-2, b + 1) if (j, m) not in legal]
+        j, m = cands[k % len(cands)]
+        try:
+            res = env.step((j, m))
+        except Exception:  # pylint: disable=broad-except
+            return f"bad {j} {m} raise"
+        return f"bad {j} {m} {self._fmt_step(res)}"
+
     def cmd_eauto(self, ts):
         return self._auto(self.env, int(ts[0]))
 
